@@ -31,20 +31,20 @@ for p in props:
 man = {
     "version": 1,
     "setup_cmd": "/venv/bin/python tools/setup.py",
-    "hooks": {"guard": "CLOUDSYNC_VERIF", "enable": "no source hook is needed: the harness rebinds module-level names (time, threading, queue, RLock, os, tempfile) of the cloudsync modules imported from /repo's working tree (sim/det.py, sim/threads.py); the guard variable is reserved and currently unused by /repo",
+    "hooks": {"guard": "CLOUDSYNC_VERIF", "enable": "no source hook is needed: the harness rebinds module-level names (time, threading, queue, RLock, Lock, os, tempfile) of the cloudsync modules imported from /repo's working tree and wraps methods of live instances (sim/det.py, sim/world.py, sim/threads.py); the guard variable is reserved and unused by /repo",
               "baseline_off_cmd": "cd /repo && /venv/bin/python -m pytest -ra -q -p no:cacheprovider --timeout=900 --continue-on-collection-errors",
               "source_commits": [], "add_only": True},
     "engines": [
         {"name": "sim-step", "path": "sim/world.py sim/plan.py sim/runner.py", "serves_properties": [c["property_id"] for c in checks if c["engine"] == "sim-step"],
          "kind_free_text": "deterministic step simulator: real CloudSync/SyncManager/EventManager/SyncState + two MockProviders, virtual clock, seeded plans of user ops / engine steps / faults / crashes, ddmin, fresh-interpreter replay"},
         {"name": "sim-threads", "path": "sim/threads.py", "serves_properties": [c["property_id"] for c in checks if c["engine"] == "sim-threads"],
-         "kind_free_text": "baton-passing real threads with sim Event/RLock/Queue/Thread/clock and optional sys.settrace line pre-emption; every switch is a recorded PRNG decision"},
-        {"name": "sim-seq", "path": "sim/seqsearch.py", "serves_properties": [c["property_id"] for c in checks if c["engine"] == "sim-seq"],
+         "kind_free_text": "baton-passing real threads with sim Event/RLock/Queue/Thread/clock and sys.settrace line pre-emption; every switch is a seeded PRNG decision (one seed = one exactly repeatable execution)"},
+        {"name": "sim-seq", "path": "props/c09.py props/c16.py props/c19.py sim/runner.py", "serves_properties": [c["property_id"] for c in checks if c["engine"] == "sim-seq"],
          "kind_free_text": "seeded operation/fault-sequence search against a reference model with shrinking and replay"},
     ],
     "checks": checks,
     "not_applicable": na,
-    "notes": "All checks: exit 0 = held, 1 = VIOLATION line + replay file, 2 = harness failure. Known findings: known_findings.json (never written at run time).",
+    "notes": "All checks: exit 0 = held, 1 = VIOLATION line + replay file, 2 = harness failure (never a verdict). Known findings: known_findings.json (never written at run time; open entries print KNOWN-FINDING lines, fixed entries carry regression exemplars that are replayed on every run). DESIGN.md Part II records what was built, the 15 fix: commits in /repo, the open findings, corrected false alarms and the seeded-change results. Self-tests: selftest/determinism.py, selftest/sensitivity.py.",
 }
 json.dump(man, open(os.path.join(V, "MANIFEST.json"), "w"), indent=1)
 print("checks:", [c["property_id"] for c in checks], "na:", [n["property_id"] for n in na])
